@@ -129,6 +129,18 @@ CLAIMED["C11"] = dict(
               "matrices and encodings + direct numeric oracle on the implementation",
     design="8 C11")
 
+CLAIMED["C13"] = dict(
+    text="Exact-rational Gallina models of scale()/center() (state-first statistics, numpy.sqrt symbolic) and of poly()'s three-term recurrence with "
+         "recorded alpha/norms2; real-number denotation of the regenerated TRANSFORMS table. Theorems: centring gives mean zero, scaling mean zero and "
+         "unit deviation for the chosen ddof, recorded keys win over later arguments and are applied unchanged; the fitted recurrence IS the monic "
+         "orthogonal family of the training data (orthogonal, orthogonal to the constant, unit length, unit-triangular in raw powers), nulls propagate "
+         "row-wise; exp10 denotes 10^x (and 10^n at naturals), log/log2/log10/exp/exp2 denote their names and partners are inverses. Model = "
+         "implementation on recorded statistics and every cell; implementation-only oracle for magnitudes, 2-D/sparse input, span, model-spec replay.",
+    note="Coq kernel + vm_compute; theorems over R use the standard library's real-number axioms (sig_forall_dec, sig_not_dec, functional_extensionality_dep, "
+         "classic); numpy ufuncs trusted to compute the function they are named after (observed against math.*); float rounding compared within 2^-24",
+    technique="Coq proof over Qc (field reasoning) and over R (stdlib Reals) + translator-regenerated transform table + in-Coq correspondence with tolerance",
+    design="8 C13")
+
 CLAIMED["C17"] = dict(
     text="Coq: in the materializer's three-layer context a name resolves to data, then context, then transforms, and the reported source is the layer that "
          "supplied it (all layer contents/overlaps); '.' is exactly the available variables not used on the lhs, in order; for formulas of looked-up "
